@@ -42,6 +42,13 @@ def dump(v):
     if isinstance(v, dict): return '{' + ','.join(json.dumps(k, ensure_ascii=False) + ':' + dump(x) for k, x in v.items()) + '}'
     return json.dumps(v, ensure_ascii=False)
 
+def conv(v):
+    """plain Python value -> the generator's representation (numbers as raw texts)"""
+    if isinstance(v, bool) or v is None or isinstance(v, str): return v
+    if isinstance(v, (int, float)): return ('raw', json.dumps(v))
+    if isinstance(v, list): return [conv(x) for x in v]
+    return {k: conv(x) for k, x in v.items()}
+
 def expected(v):
     if isinstance(v, tuple): return jsonread.canon(('flt', v[1])) if any(ch in v[1] for ch in '.eE') else jsonread.canon_num(v[1])
     if isinstance(v, list): return [expected(x) for x in v]
@@ -59,6 +66,13 @@ def run(ctx):
         cfg = lib.new_cfg(json_opts=(st, utf8), rowsep=sep)
         data = '\n'.join(dump(v) for v in vals).encode('utf8')
         cases.append(mkcase('V%d' % i, cfg, data)); exp['V%d' % i] = [expected(v) for v in vals]
+    # deep nesting (the property bounds nothing here; C01 bounds input nesting by 64): indentation is proportional at every depth
+    for d in (5, 24, 25, 26, 30, 40, 60):
+        for st in ('pretty', 'oneline', 'consise'):
+            v = 1
+            for j in range(d): v = [v, 'x'] if j % 2 else {'k': v, 'e': []}
+            i = len(cases)
+            cases.append(mkcase('V%d' % i, lib.new_cfg(json_opts=(st, False)), json.dumps(v).encode())); exp['V%d' % i] = [expected(conv(v))]
     impl, model, mism = common.correspond(cases)
     # second pass: feed the output back with the same options
     second = []
@@ -90,6 +104,16 @@ def run(ctx):
             violations.append(viol(c, 'concise style has no insignificant whitespace', repr(out[:300]), ''))
         if st in ('oneline', 'consise') and sep == b'\n' and len(rows(out)) != len(exp[c['id']]):
             violations.append(viol(c, 'one-line/concise rows contain no line break (rows framed by the separator)', repr(out[:300]), ''))
+        if st == 'pretty' and sep == b'\n':
+            # one element or member per line, indented by two blanks per nesting level (closing brackets one level out)
+            depth = 0; bad = None
+            for ln in strip_strings(out).split(b'\n'):
+                if not ln.strip(): continue
+                body = ln.lstrip(b' '); ind = len(ln) - len(body)
+                d_here = depth - (1 if body[:1] in (b']', b'}') else 0)
+                if ind != 2 * d_here: bad = (ln[:60], ind, 2 * d_here); break
+                depth += sum(1 for ch in body if ch in b'[{') - sum(1 for ch in body if ch in b']}')
+            if bad: violations.append(viol(c, 'pretty style: nesting-proportional indentation (two blanks per level)', 'line %r is indented by %d' % (bad[0], bad[1]), '%d' % bad[2]))
         b = impl2.get('W' + c['id'])
         if b is not None and (b['result'] != 'ok' or b['stdout'] != a['stdout']):
             violations.append(viol(c, 'feeding the output back with the same options reproduces it byte for byte', repr(b['stdout'][:300]), repr(a['stdout'][:300])))
